@@ -78,7 +78,10 @@ def corpus_defs(tier):
             invariants=('PrefixAlways', 'ErrIffFailed', 'ShortWritesHarmless'), properties=('SilentAfterFailure',)),
     ], rand=[dict(gen='sink_calls', n=0, rel=None, facets=F_ST)] + ([dict(gen='sink_bytes', n=0, rel=None, facets=F_ST)]))
     # --- fn: exhaustive byte strings over start-code-relevant alphabets through the pure functions --
-    d['fn14'] = dict(trace='TraceFn', kind='fnt', runs=[
+    d['fn14'] = dict(trace='TraceFn', kind='fnt', mc=[
+        _mc({'MaxLen': 7 if q else 9, 'Alphabet': '{0, 1, 2, 255}'}, module='MCAnnexB',
+            invariants=('ConversionMeetsStatement', 'UnitsAreClean', 'Conserved'), properties=(), workers=8),
+    ], runs=[
         dict(alpha=[0, 1, 2, 3, 255], maxlen=7 if q else 9, cfg=False),
     ])
     d['fncfg'] = dict(trace='TraceFn', kind='fnt', runs=[
@@ -142,7 +145,17 @@ def _abbrev(line):
 
 def run_fnt(ctx, name, d, cdir):
     res = {'name': name, 'errors': [], 'sigs': [], 'instances': 0, 'events': 0, 'mc_runs': [], 'samples': [], 'shards': 0,
-           'exhaustive': True, 'runs': []}
+           'exhaustive': True, 'runs': [], 'mc_states': 0, 'mc_generated': 0}
+    for k, m in enumerate(d.get('mc', [])):
+        cfg_text = core.mc_cfg(m['consts'], m['invariants'], m['properties'], spec=m.get('spec', 'Spec'))
+        rc, out, wall = core.run_tlc(ctx, m['module'], cfg_text, os.path.join(cdir, 'mc_%d' % k), workers=m['workers'])
+        pr = core.parse_mc_output(out)
+        res['mc_runs'].append({'module': m['module'], 'consts': m['consts'], 'states': pr['states'], 'generated': pr['generated'],
+                               'wall_s': round(wall, 1), 'completed': pr['completed']})
+        if not pr['completed']:
+            res['errors'].append('design check %s failed: %s' % (m['module'], pr['error']))
+        res['mc_states'] += pr['states']
+        res['mc_generated'] += pr['generated']
     for k, r in enumerate(d['runs']):
         outdir = os.path.join(cdir, 'fn_%d' % k)
         alpha = ','.join(str(x) for x in r['alpha'])
@@ -346,5 +359,6 @@ def nontrivial_counts(summ):
         'C06': cnt(lambda s: s['fin'] >= 1 and s['calls'] >= 2),
         'C10': cnt(lambda s: s.get('segs', 0) >= 2), 'C11': cnt(lambda s: s.get('segs', 0) >= 2),
         'C12': cnt(lambda s: True),
+        'C13': cnt(lambda s: s.get('sched_nonfull')),
         'C17': cnt(lambda s: True),
     }
